@@ -1,6 +1,7 @@
 import Driver.Parse
 import Driver.FD
 import Driver.Unify
+import Driver.Prog
 /-!
   pvdriver: reads one case per line on stdin, runs the executable model, prints one canonical
   result line per case.  Unknown or malformed lines print `bad-case`.
@@ -12,6 +13,7 @@ def runLine (line : String) : String :=
   match ts with
   | "fd" :: rest => runFD rest
   | "unify" :: rest => runUnify rest
+  | "prog" :: rest => runProg rest
   | _ => "bad-case"
 
 partial def loop (h : IO.FS.Stream) (out : IO.FS.Stream) : IO Unit := do
